@@ -5,6 +5,7 @@ Own predicate: the printed tags of a strict expression are the probe tags in sou
 import re
 import core, lang
 from lang import *  # noqa
+import zlib
 from props.common import sub_rng, diff_runs, replay_generic, corpus_cases
 
 replay = replay_generic
@@ -71,6 +72,14 @@ def run(env, tier, seed, broken=None):
     cases.append({'id': 'l%d' % n, 'src': PRE + 'undefinedName = p("only", 1);\n%s "after";\n' % PRINT}); n += 1
     cases.append({'id': 'l%d' % n, 'src': PRE + '%s f2(p("a", 1), zz = p("b", 2));\n' % PRINT}); n += 1
     truthy_ids = list(range(len(corpus_cases('C14')), len(cases)))
+    # every operator with a LITERAL on one side (the constants a fast path would single out: 0, 1, 2, 3, -1, 0.5, "2", true) and an
+    # operand with an effect on the other - bare, parenthesised, doubly parenthesised, an assignment: evaluated exactly once
+    for op in ['+', '-', '*', '/', '%', '**', '<', '<=', '>', '>=', '==', '!=', '&', '|', '^', '<<', '>>', '||', '&&']:
+        for lit in ['0', '1', '2', '3', '-1', '0.5', '"2"', TRUE]:
+            for shape in ['p("A", 3)', '(p("A", 3))', '((p("A", 3)))', '(x = x + 1)', 'arr[p("I", 1)]', '(ob.k = ob.k + 1)']:
+                for e in ('%s %s %s' % (shape, op, lit), '%s %s %s' % (lit, op, shape)):
+                    if tier == 'thorough' or zlib.crc32(repr((seed, e)).encode()) % 3 == 0:
+                        cases.append({'id': 'k%d' % n, 'src': PRE + '%s %s;\n%s [x, ob.k];\n' % (PRINT, e, PRINT)}); n += 1
     for _ in range(5000 if tier == 'quick' else 150000):
         g = G(rng)
         e = g.expr(rng.randint(1, 3 if tier == 'quick' else 4))
